@@ -115,6 +115,11 @@ OpenStream(n, g, v, lg) ==
           /\ cur' = [num |-> n, gen |-> g, val |-> v, lg |-> lg, started |-> FALSE, buf |-> 0,
                      lenRef |-> 0, hdrPos |-> 0]
           /\ lastErr' = "" /\ UNCHANGED <<deferred, pos, emitted, written, trailer>>
+\* OpenStream refused for its arguments (a non-integer /Length, a filter the
+\* file's version does not have): nothing is recorded, the number stays free
+OpenStreamBad(n, g, why) ==
+  /\ mode = "idle" /\ Step /\ lastErr' = why
+  /\ UNCHANGED <<mode, xref, nextRef, deferred, pos, emitted, cur, written, trailer>>
 OpenWhileOpen == /\ mode = "stream" /\ Step /\ lastErr' = "inStream"
                  /\ UNCHANGED <<mode, xref, nextRef, deferred, pos, emitted, cur, written, trailer>>
 
@@ -221,6 +226,7 @@ Next == \/ Alloc \/ AllocN(2)
         \/ \E n \in ProgNums, g \in {0, 1}, v \in Vals : Put(n, g, v)
         \/ \E n \in ProgNums, g \in {0, 1}, v \in Vals : PutStm(n, g, v)
         \/ \E n \in ProgNums, g \in {0, 1}, v \in Vals, lg \in {"none", "right", "wrong"} : OpenStream(n, g, v, lg)
+        \/ \E n \in ProgNums, why \in {"badLength", "filterVersion"} : OpenStreamBad(n, 0, why)
         \/ OpenWhileOpen
         \/ \E k \in {0, 1, 2} : StreamWrite(k)
         \/ CloseStream
